@@ -86,7 +86,10 @@ func (r *schemaLoader) transitiveResolver(basePath string, ref Ref) *schemaLoade
 
 	baseRef := MustCreateRef(basePath)
 	currentRef := normalizeRef(&ref, basePath)
-	if strings.HasPrefix(currentRef.String(), baseRef.String()) {
+	// still in the same document? (a mere string prefix would take "doc.jsonx" or "doc.json.d/x.json" for "doc.json")
+	baseDoc, currentDoc := *baseRef.GetURL(), *currentRef.GetURL()
+	baseDoc.Fragment, currentDoc.Fragment = "", ""
+	if currentDoc.String() == baseDoc.String() {
 		return r
 	}
 
